@@ -13,6 +13,9 @@
 //	                                          then the row-path limitIterator; node = "-" or "ts:sid:ver:val,..."
 //	smerge <asc|desc> <grp>|...               stream.MergeGroupElements; grp = "-" or "ts:id,..."
 //	topq   <n> <top|bot> v1,v2,...            measure.TopQueue Insert* then Elements
+//	mqr    <ts|sid> <asc|desc> <min> <max> <sid>+<sid>.. <part>|<part>..
+//	                                          banyand/measure queryResult over real mem parts (one per <part>),
+//	                                          part = "sid:ts:ver:val,..."; output = one "sid=ts:ver:val,.." per Pull
 package main
 
 import (
@@ -31,6 +34,7 @@ import (
 	streamv1 "github.com/apache/skywalking-banyandb/api/proto/banyandb/stream/v1"
 	"github.com/apache/skywalking-banyandb/banyand/internal/sidx"
 	"github.com/apache/skywalking-banyandb/banyand/internal/verifdrv/drv"
+	"github.com/apache/skywalking-banyandb/banyand/measure"
 	"github.com/apache/skywalking-banyandb/banyand/observability"
 	"github.com/apache/skywalking-banyandb/banyand/protector"
 	"github.com/apache/skywalking-banyandb/pkg/fs"
@@ -382,6 +386,33 @@ func doTopQ(f []string) string {
 	return a + " " + strings.Join(out, ",")
 }
 
+func doMQR(f []string) string {
+	if len(f) != 7 {
+		return "bad-op"
+	}
+	minTS, _ := strconv.ParseInt(f[3], 10, 64)
+	maxTS, _ := strconv.ParseInt(f[4], 10, 64)
+	var sids []uint64
+	for _, x := range strings.Split(f[5], "+") {
+		v, _ := strconv.ParseUint(x, 10, 64)
+		sids = append(sids, v)
+	}
+	var parts [][]measure.VerifC09DP
+	for _, spec := range strings.Split(f[6], "|") {
+		var rows []measure.VerifC09DP
+		for _, e := range strings.Split(spec, ",") {
+			p := strings.Split(e, ":")
+			sid, _ := strconv.ParseUint(p[0], 10, 64)
+			ts, _ := strconv.ParseInt(p[1], 10, 64)
+			ver, _ := strconv.ParseInt(p[2], 10, 64)
+			val, _ := strconv.ParseUint(p[3], 10, 64)
+			rows = append(rows, measure.VerifC09DP{Sid: sid, Ts: ts, Version: ver, Val: val})
+		}
+		parts = append(parts, rows)
+	}
+	return measure.VerifC09Query(parts, sids, minTS, maxTS, f[1] == "ts", f[2] != "desc")
+}
+
 func handle(f []string) string {
 	if len(f) == 0 {
 		return "bad-op"
@@ -397,6 +428,8 @@ func handle(f []string) string {
 		return doSMerge(f)
 	case "topq":
 		return doTopQ(f)
+	case "mqr":
+		return doMQR(f)
 	}
 	return "bad-op"
 }
